@@ -6,6 +6,7 @@ is: every non-zero tag occurs at most once.  Arity/link consistency is by typing
 pointer-level statement for the primitives is in `Props/C15.lean`, `Props/C13.lean`).
 -/
 import Mathy.Proofs.Apply
+import Mathy.Proofs.Struct
 namespace Mathy
 
 /-- every original object occurs at most once -/
@@ -16,7 +17,22 @@ result at most as often as in the input. -/
 theorem C07_no_object_duplicated (r : Rule) (k k' : Ctx) (n n' : Ex)
     (h : applyRule r k n = .ok (k', n')) (x : Nat) (hx : x ≠ 0) :
     (plug k' n').tags.count x ≤ (plug k n).tags.count x := by
-  sorry
+  cases r with
+  | associative =>
+    obtain ⟨f, rfl, hl⟩ := asApply_struct h
+    exact hl.plug_tags k' x hx
+  | commutative p => obtain ⟨rfl, hl⟩ := csApply_struct h; exact hl.plug_tags _ x hx
+  | constants => obtain ⟨rfl, hl⟩ := caApply_struct h; exact hl.plug_tags _ x hx
+  | factorOut c => obtain ⟨rfl, hl⟩ := dfApply_struct h; exact hl.plug_tags _ x hx
+  | distribute => obtain ⟨rfl, hl⟩ := dmApply_struct h; exact hl.plug_tags _ x hx
+  | inverse => obtain ⟨rfl, hl⟩ := miApply_struct h; exact hl.plug_tags _ x hx
+  | restate => obtain ⟨rfl, hl⟩ := rsApply_struct h; exact hl.plug_tags _ x hx
+  | variableMultiply => obtain ⟨rfl, hl⟩ := vmApply_struct h; exact hl.plug_tags _ x hx
+  | balancedMove =>
+    obtain ⟨rfl, ht, -⟩ := bmApply_struct h
+    simp only [plug]
+    rw [ht x hx]
+    exact Nat.zero_le _
 
 theorem C07_tags_ok (r : Rule) (k k' : Ctx) (n n' : Ex)
     (h : applyRule r k n = .ok (k', n')) (ht : TagsOk (plug k n)) : TagsOk (plug k' n') :=
@@ -31,12 +47,38 @@ theorem C07_context_untouched (r : Rule) (k k' : Ctx) (n n' : Ex)
     (r ≠ .associative ∧ r ≠ .balancedMove → k' = k) ∧
     (r = .associative → k' = k.tail) ∧
     (r = .balancedMove → k' = [] ∧ ∀ x, x ≠ 0 → n'.tags.count x = 0) := by
-  sorry
+  cases r with
+  | associative =>
+    obtain ⟨f, rfl, -⟩ := asApply_struct h
+    simp
+  | commutative p => obtain ⟨rfl, -⟩ := csApply_struct h; simp
+  | constants => obtain ⟨rfl, -⟩ := caApply_struct h; simp
+  | factorOut c => obtain ⟨rfl, -⟩ := dfApply_struct h; simp
+  | distribute => obtain ⟨rfl, -⟩ := dmApply_struct h; simp
+  | inverse => obtain ⟨rfl, -⟩ := miApply_struct h; simp
+  | restate => obtain ⟨rfl, -⟩ := rsApply_struct h; simp
+  | variableMultiply => obtain ⟨rfl, -⟩ := vmApply_struct h; simp
+  | balancedMove =>
+    obtain ⟨rfl, ht, -⟩ := bmApply_struct h
+    exact ⟨fun hne => absurd rfl hne.2, fun hne => by simp at hne, fun _ => ⟨rfl, ht⟩⟩
 
 /-- **C07 (3).** The set of variables is unchanged. -/
 theorem C07_same_variables (r : Rule) (k k' : Ctx) (n n' : Ex)
     (hc : canApply r k n = true) (h : applyRule r k n = .ok (k', n')) (c : Char) :
     c ∈ (plug k' n').vars ↔ c ∈ (plug k n).vars := by
-  sorry
+  cases r with
+  | associative =>
+    obtain ⟨f, rfl, hl⟩ := asApply_struct h
+    exact hl.plug_vars k' c
+  | commutative p => obtain ⟨rfl, hl⟩ := csApply_struct h; exact hl.plug_vars _ c
+  | constants => obtain ⟨rfl, hl⟩ := caApply_struct h; exact hl.plug_vars _ c
+  | factorOut cs => obtain ⟨rfl, hl⟩ := dfApply_struct h; exact hl.plug_vars _ c
+  | distribute => obtain ⟨rfl, hl⟩ := dmApply_struct h; exact hl.plug_vars _ c
+  | inverse => obtain ⟨rfl, hl⟩ := miApply_struct h; exact hl.plug_vars _ c
+  | restate => obtain ⟨rfl, hl⟩ := rsApply_struct h; exact hl.plug_vars _ c
+  | variableMultiply => obtain ⟨rfl, hl⟩ := vmApply_struct h; exact hl.plug_vars _ c
+  | balancedMove =>
+    obtain ⟨rfl, -, hv⟩ := bmApply_struct h
+    simpa only [plug] using hv c
 
 end Mathy
